@@ -722,6 +722,11 @@ func runC17(c *Ctx) {
 	c.rawServiceRule("C08.P3")
 	// … and the resolved document carries keys and services alike: both transformer steps run on every accepting path
 	c.transformStepsRule("C18.P1")
+	// the initial state's patches are applied by the composer (all of C10: a handler that rewrites what it stores — a
+	// URI re-serialised, a key merged — resolves to a document that is not the one supplied), and the suffix is a hash of
+	// the canonical form (the JCS rules)
+	runC10(c)
+	c.jcsRules()
 }
 
 // condsOf: branch conditions (path=truth) on the single-predecessor dominator chain of b.
